@@ -1296,6 +1296,12 @@ crafted(struct doc *d, int which)
 			doc_puts(d, "\nLOCATION:/tmp\nEND:VEVENT\nEND:VCALENDAR\n");
 			break;
 		}
+		if (which == 19 + 44) {
+			snprintf(d->name, sizeof(d->name), "carriage returns that are not part of a line break: inside values, doubled before the break, before a fold");
+			doc_puts(d, "BEGIN:VCALENDAR\r\nBEGIN:VEVENT\r\nUID:cr\rid\r\nSUMMARY:echo foo\rbar\r\r\nDESCRIPTION:a\r b\r\r\n  c\r\n"
+				 "LOCATION:/tmp\r/x\r\nDTSTART:20200301T100000Z\r\nX-ECHS-OFILE:/tmp/o\rut\r\nEND:VEVENT\r\nEND:VCALENDAR\r\n");
+			break;
+		}
 		return 0;
 	}
 	return 1;
@@ -1372,7 +1378,7 @@ enum_docs(bool samples)
 			break;
 		}
 		n = D.n;
-		cur_slug = samples ? NULL : i < (int)(sizeof(crafted_slug) / sizeof(*crafted_slug)) ? crafted_slug[i] : "long-line-escapes";
+		cur_slug = samples ? NULL : i < (int)(sizeof(crafted_slug) / sizeof(*crafted_slug)) ? crafted_slug[i] : i == 19 + 44 ? "lone-cr" : "long-line-escapes";
 		vd_shape("%s/load", D.fam);
 		if (vd_next()) {
 			const unsigned sv = parts_mask;
